@@ -12,9 +12,17 @@
 (* BigNat number domain with the production constants.  Findings are       *)
 (* printed (VIOL ...) and validation continues.                            *)
 (***************************************************************************)
-EXTENDS PropsWorld, NumBig, Json, IOUtils
+EXTENDS Machine, NumBig, Json, IOUtils
 
 Rec == ndJsonDeserialize(IOEnv.TRACE)
+
+\* registry-key bytes of every identifier, as recorded by the harness at the start of each behaviour
+\* (denom bytes; MockApi canonical bytes of account / contract addresses, also of contracts yet to be created)
+ResetIdx == {i \in DOMAIN Rec : Rec[i].k = "reset" /\ "bytes" \in DOMAIN Rec[i]}
+BytesMap == [id \in UNION {DOMAIN Rec[i].bytes : i \in ResetIdx} |->
+                Rec[CHOOSE i \in ResetIdx : id \in DOMAIN Rec[i].bytes].bytes[id]]
+TraceKeyBytes(id) == IF id \in DOMAIN BytesMap THEN BytesMap[id] ELSE <<>>
+TraceAddrOfIndex(n) == "contract" \o ToString(n)
 
 PIDS == {"C01", "C02", "C03", "C04", "C05", "C06", "C07", "C09", "C10", "C11", "C12", "C13", "C14",
          "C15", "C16", "C17", "C19", "C20"}
@@ -30,6 +38,45 @@ NoQ == [kind |-> "none"]
 Rep(tag, prop, clause, known) == PrintT(<<tag, prop, clause, l, known, Rec[l].h>>)
 \* IF, not \/ : TLC would split a disjunction inside an action into alternative successors
 Chk(cond, prop, clause, known) == IF cond THEN TRUE ELSE Rep("VIOL", prop, clause, known)
+
+\* diagnostic: the observed step differs from the reference machine's step (never an alarm)
+Dev(cond, what) == IF cond THEN TRUE ELSE Rep("DEV", "-", what, "")
+
+SpecificWhy == {"err:Unauthorized", "err:Asset mismatch", "err:Max spread assertion", "err:Max slippage assertion",
+                "err:Native token balance mismatch", "err:Invalid zero amount", "err:minimum receive",
+                "err:must provide operations", "err:multiple output token", "err:Pair already exists", "err:same asset",
+                "err:commission rate", "err:asset invalid", "err:factory balance", "panic"}
+
+SameObserved(mw, post) ==
+    IF post.light THEN mw.fac = post.fac /\ mw.pair = post.pair
+    ELSE mw = post
+
+RefTx(pre, e, post) ==
+    LET m == Tx(pre, e.op) IN
+    /\ Dev(m.res.ok = e.res.ok, "tx-outcome")
+    /\ Dev((m.res.ok /\ e.res.ok) => SameObserved(m.w, post), "tx-world")
+    /\ Dev((~m.res.ok /\ ~e.res.ok /\ m.res.why \in SpecificWhy /\ e.res.why \in SpecificWhy) => m.res.why = e.res.why, "tx-why")
+
+PageOf(seq) == [i \in DOMAIN seq |-> seq[i].pair]
+RECURSIVE WalkFrom(_, _, _, _)
+WalkFrom(w, start, limit, fuel) ==
+    LET page == QPairs(w, start, limit, DefaultLimit, MaxLimit) IN
+    IF page = <<>> \/ fuel = 0 THEN <<>>
+    ELSE <<PageOf(page)>> \o WalkFrom(w, Some(<<page[Len(page)].a0, page[Len(page)].a1>>), limit, fuel - 1)
+
+RefQ(w, q, ans) ==
+    CASE q.op = "q_simulation" ->
+            LET m == QSimulation(w, q.pair, q.offer) IN
+            Dev(m.ok = ans.ok /\ (m.ok => m.ret = ans.ret /\ m.spread = ans.spread /\ m.comm = ans.comm), "q-simulation")
+      [] q.op = "q_reverse" ->
+            LET m == QReverse(w, q.pair, q.ask) IN
+            Dev(m.ok = ans.ok /\ (m.ok => m.offer = ans.offer /\ m.spread = ans.spread /\ m.comm = ans.comm), "q-reverse")
+      [] q.op = "q_router_sim" ->
+            LET m == QRouterSim(w, q.operations, q.amount) IN
+            Dev(m.ok = ans.ok /\ (m.ok => m.amount = ans.amount), "q-router-sim")
+      [] q.op = "q_fac_walk" ->
+            Dev(ans.ok => [i \in DOMAIN ans.pages |-> PageOf(ans.pages[i])] = WalkFrom(w, None, q.limit, 200), "q-fac-walk")
+      [] OTHER -> TRUE
 
 \* class of a C01/C03 violation on pair p: inside the KF-1 input class or fresh
 Cls(pre, ev, p) == SwapClassOn(pre, ev, p)
@@ -143,10 +190,12 @@ Step ==
               LET post == Canon(e.post)
                   ev == [op |-> e.op, res |-> e.res]
               IN  /\ TxChecks(obs, ev, post)
+                  /\ RefTx(obs, e, post)
                   /\ Bump(TxApplies(obs, ev))
                   /\ obs' = post /\ lastq' = NoQ
          [] e.k = "q" ->
               /\ QChecks(obs, e.op, e.ans)
+              /\ RefQ(obs, e.op, e.ans)
               /\ Bump(QApplies(e.op, e.ans))
               /\ lastq' = [kind |-> e.op.op, op |-> e.op, ans |-> e.ans]
               /\ obs' = obs
